@@ -372,7 +372,7 @@ def run(ctx):
     for i in range(ctx.n(90, 900)):
         immutable_case(ctx, i, terms, info)
     refuted_witnesses(ctx)
-    bad = ctx.coq_check(IMPORTS, terms, preamble=PREAMBLE, tag="c19", shard=14)
+    bad = ctx.coq_check(IMPORTS, terms, preamble=PREAMBLE, tag="c19", shard=max(18, (len(terms) + 6) // 7))
     for ix in bad:
         corr = "pack-unpack-model-vs-dirnode" if ix < nmut else "immutable-pack-model-vs-dirnode"
         ctx.mismatch("model-vs-impl:" + info[ix]["stream"], "Coq model of pack/unpack and dirnode.py differ on this directory",
